@@ -8,23 +8,57 @@ open BbRe.BuildClient
 
 macro "pcsimp" : tactic => `(tactic| first | (simp; done) | (simp; split <;> simp))
 
-theorem inv_log {s : State} (h : Inv s) (o : Obs) (ho : ObsOK o) :
+theorem sac_append {l : List Obs} (h : SentAfterCancel l) (o : Obs)
+    (ho : ∀ r sn, o = .sent r sn → Obs.cancel ∈ l → r.preferIdle = true) :
+    SentAfterCancel (l ++ [o]) := by
+  intro l1 l2 heq r sn hm
+  rcases List.eq_nil_or_concat l2 with h2 | ⟨l2', b, h2⟩
+  · subst h2; simp at hm
+  · subst h2
+    have e1 : l1 ++ Obs.cancel :: (l2'.concat b) = (l1 ++ Obs.cancel :: l2') ++ [b] := by simp
+    rw [e1] at heq
+    have hl : l = l1 ++ Obs.cancel :: l2' := List.append_inj_left' heq rfl
+    have hb : [o] = [b] := List.append_inj_right' heq rfl
+    simp at hb hm
+    rcases hm with hm | hm
+    · exact h l1 l2' hl r sn hm
+    · subst hb
+      exact ho r sn hm.symm (by rw [hl]; simp)
+
+/-- Appending one entry to the log (shutdown flag unchanged). -/
+theorem logOK_append {l : List Obs} {c : Bool} (h : LogInv l c) (o : Obs) (ho : ObsOK o)
+    (hc : o = .cancel → c = true := by simp)
+    (hs : ∀ r sn, o = .sent r sn → c = true → r.preferIdle = true := by simp) :
+    LogInv (l ++ [o]) c := by
+  obtain ⟨h1, h2, h3⟩ := h
+  refine ⟨?_, ?_, ?_⟩
+  · intro o' ho'
+    simp at ho'
+    rcases ho' with ho' | ho'
+    · exact h1 o' ho'
+    · subst ho'; exact ho
+  · intro hm
+    simp at hm
+    rcases hm with hm | hm
+    · exact h2 hm
+    · exact hc hm.symm
+  · exact sac_append h3 o (fun r sn e hm => hs r sn e (h2 hm))
+
+theorem logOK_cancel {l : List Obs} {c : Bool} (h : LogInv l c) : LogInv (l ++ [.cancel]) true := by
+  obtain ⟨h1, _, h3⟩ := h
+  refine ⟨?_, fun _ => rfl, sac_append h3 _ (by simp)⟩
+  intro o' ho'
+  simp at ho'
+  rcases ho' with ho' | ho'
+  · exact h1 o' ho'
+  · subst ho'; trivial
+
+theorem inv_log {s : State} (h : Inv s) (o : Obs) (ho : ObsOK o)
+    (hc : o = .cancel → s.cancelled = true := by simp)
+    (hs : ∀ r sn, o = .sent r sn → s.cancelled = true → r.preferIdle = true := by simp) :
     Inv { s with log := s.log ++ [o] } := by
   obtain ⟨h1, h2, h3, h4, h5, h6, h7, h8, h9⟩ := h
-  refine ⟨h1, h2, h3, h4, h5, h6, h7, h8, ?_⟩
-  intro o' ho'
-  simp at ho'
-  rcases ho' with ho' | ho'
-  · exact h9 o' ho'
-  · subst ho'; exact ho
-
-theorem logOK_append {l : List Obs} (h : ∀ o ∈ l, ObsOK o) (o : Obs) (ho : ObsOK o) :
-    ∀ o' ∈ l ++ [o], ObsOK o' := by
-  intro o' ho'
-  simp at ho'
-  rcases ho' with ho' | ho'
-  · exact h o' ho'
-  · subst ho'; exact ho
+  exact ⟨h1, h2, h3, h4, h5, h6, h7, h8, logOK_append h9 o ho hc hs⟩
 
 def toldFor (k : DrainFor) (r : Option Reply) : Prop :=
   match k with
@@ -37,7 +71,7 @@ theorem live_zero_of {s : State} (hr : ∀ e ∈ s.retired, e.closed = true ∧ 
 
 theorem inv_finishStop {s : State}
     (hr : ∀ e ∈ s.retired, e.closed = true ∧ e.received <+: e.emitted)
-    (hc : s.cur = none) (hl : ∀ o ∈ s.log, ObsOK o) (k : DrainFor) (hk : toldFor k s.lastReply) :
+    (hc : s.cur = none) (hl : LogInv s.log s.cancelled) (k : DrainFor) (hk : toldFor k s.lastReply) :
     Inv (finishStop s k) := by
   cases k with
   | idle =>
@@ -65,12 +99,11 @@ theorem inv_finishStop {s : State}
       obtain ⟨ts, hts⟩ := ht
       obtain ⟨ts', hts'⟩ := hk
       simp at hts; rw [hts] at hts'; simp at hts'
-    · apply logOK_append
-      · apply logOK_append hl
+    · have hsp : ObsOK (Obs.spawn s.nextId d (snap { s with req := .idle } false)) := by
         refine ⟨?_, ?_⟩
         · simp [snap]; exact live_zero_of (s := { s with req := .idle }) hr hc
         · simpa [snap, toldFor] using hk
-      · simp [ObsOK, RetOK]
+      exact logOK_append (logOK_append hl _ hsp) _ (by simp [ObsOK, RetOK])
 
 /-- Replacing the current executor by a later stage of itself. -/
 theorem inv_setCur {s : State} (h : Inv s) {e e' : Exec} (hc : s.cur = some e)
@@ -267,7 +300,8 @@ theorem sentOK_of_inv {s : State} (h : Inv s) (hnd : ∀ k, s.pc ≠ .drain k) (
 theorem inv_sendReq {s : State} (h : Inv s) (hnd : ∀ k, s.pc ≠ .drain k) (rc : Bool)
     (hrc : rc = true ∨ s.mayThink.isSome = true) : Inv (sendReq s rc) := by
   have h1 := inv_pc h hnd (.sync (preferOf s.req s.mayThink).2) (by simp) (by simp) (by simp)
-  exact inv_log h1 _ (sentOK_of_inv h hnd rc hrc)
+  exact inv_log h1 _ (sentOK_of_inv h hnd rc hrc) (by simp)
+    (by intro r sn e hc; simp at e hc; rw [← e.1]; simp [hc])
 
 theorem inv_retRun {s : State} (h : Inv s) (hnd : ∀ k, s.pc ≠ .drain k) (mt err : Bool)
     (hok : RetOK mt (snap s false)) : Inv (retRun s mt err) := by
